@@ -767,8 +767,10 @@ class WaveSpectrum(DatasetWrapper):
 
     @staticmethod
     def _spread(a1: xarray.DataArray, b1: xarray.DataArray) -> xarray.DataArray:
+        # For waves travelling in a single direction a1**2 + b1**2 equals 1 and may
+        # exceed it by rounding (which would give NaN instead of a zero spread).
         return xarray.DataArray(
-            np.sqrt(2 - 2 * np.sqrt(a1**2 + b1**2)) * 180 / np.pi
+            np.sqrt(np.maximum(2 - 2 * np.sqrt(a1**2 + b1**2), 0)) * 180 / np.pi
         )
 
     @property
